@@ -443,7 +443,17 @@ def linear(
 def density_matrix_instruction(
     state: FockState, instruction: Instruction, shots: int
 ) -> List[Branch]:
-    _add_occupation_number_basis(state, **instruction.params)
+    params = dict(instruction.params)
+    modes = instruction.modes
+
+    if modes and len(modes) == len(params["ket"]) == len(params["bra"]):
+        # the i-th occupation number belongs to the i-th listed mode
+        for key in ("ket", "bra"):
+            placed = np.zeros(len(modes), dtype=int)
+            placed[modes,] = np.array(params[key])
+            params[key] = tuple(int(n) for n in placed)
+
+    _add_occupation_number_basis(state, **params)
 
     return [Branch(state=state)]
 
